@@ -182,7 +182,14 @@ pub fn get_solidity_version_from_source_unit(source_unit: SourceUnit) -> Option<
     for node in target_nodes {
         let source_unit_part = node.source_unit_part().unwrap();
 
-        if let SourceUnitPart::PragmaDirective(_, _, solidity_version_literal) = source_unit_part {
+        if let SourceUnitPart::PragmaDirective(_, pragma_identifier, solidity_version_literal) =
+            source_unit_part
+        {
+            //Only the solidity pragma carries the version, skip pragmas like experimental or abicoder
+            if pragma_identifier.name != "solidity" {
+                continue;
+            }
+
             let minor_major_patch_version =
                 get_solidity_major_minor_patch_version(&solidity_version_literal.string)
                     .iter()
